@@ -14,6 +14,8 @@ R_f3x2nb == UNION {[1..k -> FieldsOver(CharsNoBreak, 3)] : k \in 1..2}
 R_f1x2   == UNION {[1..k -> FieldsOver(Chars, 1)] : k \in 0..2}
 \* None cells and plain cells (warning clause)
 R_none   == UNION {[1..k -> {NoneCell, <<97>>, <<>>, <<DlmA>>}] : k \in 1..2}
+\* list-valued cells, with and without a None element (the None must still be reported)
+R_list   == UNION {[1..k -> {ListOf(<< <<97>>, NoneCell >>), ListOf(<< <<97>>, <<98>> >>), ListOf(<<>>), ListOf(<< NoneCell >>), <<97>>, NoneCell}] : k \in 1..2}
 \* BOM character leading the first field
 R_bom    == {<< <<BOMC, 97>> >>, << <<BOMC>> >>, << <<97>>, <<BOMC>> >>, << <<97, BOMC>> >>}
 =============================================================================
